@@ -162,7 +162,21 @@ def gen_scene(rng, small):
     ny = rng.randint(5, 8 if small else 12)
     nx = rng.randint(6, 10 if small else 16)
     kind = rng.choice(['gauss', 'gauss', 'multi', 'multi', 'multi', 'faint', 'faint', 'interlock', 'interlock',
+                       'touch', 'touch', 'touch',
                        'clusters', 'plateau', 'ridge', 'hand', 'noise'])
+    if kind == 'touch':
+        # a compact group of 2-4 sources; the detected segment(s) are afterwards CUT into touching
+        # pieces (gen_case), so parents have bright neighbours inside their bounding boxes
+        ny, nx = rng.randint(7, 11), rng.randint(9, 15)
+        cyc, cxc = (ny - 1) / 2, (nx - 1) / 2
+        srcs = [(rng.choice([20, 40, 80, 150]), cyc + rng.uniform(-2.5, 2.5), cxc + rng.uniform(-4, 4),
+                 rng.choice([0.8, 1.0, 1.5, 2.0])) for _ in range(rng.randint(2, 4))]
+        data = _gauss(ny, nx, srcs)
+        data = np.round(data) if rng.random() < 0.6 else np.round(data * 4) / 4
+        if rng.random() < 0.3:      # a few one-pixel bumps
+            for _ in range(rng.randint(1, 3)):
+                data[rng.randrange(ny), rng.randrange(nx)] += rng.choice([2, 5, 10])
+        return kind, data
     if kind == 'interlock':
         # 2-3 two-source blends on parallel diagonals: separate segments whose bounding boxes
         # contain pixels of each other (a whole-cutout write would damage the neighbour)
@@ -264,6 +278,30 @@ def gen_scene(rng, small):
     return kind, data
 
 
+def cut_segments(seg, rng):
+    ny, nx = seg.shape
+    y, x = np.mgrid[:ny, :nx]
+    how = rng.choice(['l2', 'l1', 'linf', 'stripes'])
+    k = rng.randint(2, 4)
+    if how == 'stripes':
+        a, b = rng.choice([(1, 0), (0, 1), (1, 1), (1, -1), (2, 1), (1, 2)])
+        w = rng.choice([2, 3, 4, 5])
+        cell = ((a * y + b * x + rng.randint(0, 4)) // w) % k
+    else:
+        pts = [(rng.uniform(0, ny - 1), rng.uniform(0, nx - 1)) for _ in range(k)]
+        dist = []
+        for (py, px) in pts:
+            dy, dx = np.abs(y - py), np.abs(x - px)
+            dist.append(np.hypot(dy, dx) if how == 'l2' else dy + dx if how == 'l1' else np.maximum(dy, dx))
+        cell = np.argmin(np.array(dist), axis=0)
+    new = np.where(seg > 0, (seg.astype(np.int64) - 1) * k + cell + 1, 0)
+    vals, inv = np.unique(new, return_inverse=True)
+    out = inv.reshape(seg.shape)
+    if vals[0] != 0:
+        out = out + 1
+    return out.astype(int)
+
+
 def gen_case(rng, small=False):
     from photutils.segmentation import detect_sources
     kind, data = gen_scene(rng, small)
@@ -277,6 +315,8 @@ def gen_case(rng, small=False):
         thr, npix_det = rng.choice([0.5, 1, 1]), rng.choice([2, 3, 5])
     if kind == 'interlock':
         thr, npix_det = 10, rng.choice([1, 2, 3])
+    if kind == 'touch':
+        thr, npix_det = rng.choice([0.5, 1, 2]), rng.choice([1, 2, 3])
     seg = None
     if kind != 'hand':
         with warnings.catch_warnings():
@@ -297,6 +337,27 @@ def gen_case(rng, small=False):
         if not seg.any():
             seg[0, 0] = 1
     flavour = []
+    # touching segments: cut the detected segments into pieces (Voronoi cells of random points in the
+    # L2 / L1 / L-infinity metric, or stripes), not aligned with the saddles: 4- and 8-adjacent
+    # neighbours, pieces inside each other's bounding boxes, slivers of a neighbour's wing
+    if kind == 'touch' or (kind in ('gauss', 'clusters', 'multi', 'plateau', 'ridge') and rng.random() < 0.12):
+        seg = cut_segments(seg, rng)
+        flavour.append('cut-into-touching-pieces')
+    # second pass: the OUTPUT of an earlier deblend_sources call (children touch each other) is the
+    # input label map (as a fresh SegmentationImage; `redeblend` below passes the object itself)
+    if kind in ('gauss', 'clusters', 'multi', 'touch', 'faint', 'ridge') and rng.random() < 0.15:
+        from photutils.segmentation import SegmentationImage, deblend_sources
+        try:
+            with warnings.catch_warnings():
+                warnings.simplefilter('ignore')
+                first = deblend_sources(data, SegmentationImage(seg.copy()), rng.choice([1, 1, 2]),
+                                        nlevels=rng.choice([4, 8, 32]), contrast=rng.choice([0, 0.001]),
+                                        mode=rng.choice(['linear', 'exponential', 'sinh']),
+                                        connectivity=conn_det, relabel=rng.random() < 0.5, progress_bar=False)
+            seg = np.array(first.data)
+            flavour.append('second-pass')
+        except ValueError:
+            pass
     # tiny extra segments in the background
     if rng.random() < 0.3:
         free = [(y, x) for y in range(ny) for x in range(nx) if seg[y, x] == 0]
@@ -351,6 +412,11 @@ def gen_case(rng, small=False):
         data = data.copy()
         data[iy, ix] = rng.choice([0.0, -0.5, -2.0])
         flavour.append('nonpos-pixel-in-one-segment')
+    if kind == 'touch' or 'second-pass' in flavour or 'cut-into-touching-pieces' in flavour:
+        if rng.random() < 0.8:
+            npix = rng.choice([2, 3, 3, 4, 5])
+            nlevels = rng.choice([4, 8, 32, 32])
+            contrast = rng.choice([0, 0.001, 0.01])
     if kind in ('multi', 'interlock') and rng.random() < 0.8:
         npix = rng.choice([1, 2, 3])
         nlevels = rng.choice([4, 8, 32])
@@ -412,7 +478,9 @@ def gen_case(rng, small=False):
         flavour.append('float32-input')
     return dict(kind=kind, flavour=flavour, data=data, seg=seg, npix=npix, nlevels=nlevels,
                 contrast=contrast, mode=mode, conn=conn, relabel=relabel, labels=labels,
-                redeblend=rng.random() < 0.08)
+                redeblend=({'npixels': rng.choice([1, 2, npix]), 'nlevels': rng.choice([4, 8, 32]),
+                            'mode': rng.choice(['linear', 'exponential', 'sinh'])}
+                           if rng.random() < 0.10 else False))
 
 
 def directed_cases():
@@ -509,8 +577,10 @@ def make_segm(case):
         try:
             with warnings.catch_warnings():
                 warnings.simplefilter('ignore')
-                segm = deblend_sources(case['data'], segm, case['npix'], nlevels=4, contrast=0.0,
-                                       mode='linear', connectivity=case['conn'], relabel=False,
+                rd = case['redeblend'] if isinstance(case['redeblend'], dict) else \
+                    {'npixels': case['npix'], 'nlevels': 4, 'mode': 'linear'}
+                segm = deblend_sources(case['data'], segm, rd['npixels'], nlevels=rd['nlevels'], contrast=0.0,
+                                       mode=rd['mode'], connectivity=case['conn'], relabel=False,
                                        progress_bar=False)
         except Exception:
             segm = SegmentationImage(case['seg'].copy())
@@ -766,7 +836,7 @@ def describe(case):
             'contrast': case['contrast'], 'mode': case['mode'], 'connectivity': int(case['conn']),
             'relabel': bool(case['relabel']),
             'labels': case['labels'] if case['labels'] is None or isinstance(case['labels'], list) else int(case['labels']),
-            'redeblend': bool(case.get('redeblend', False))}
+            'redeblend': case.get('redeblend', False) or False}
 
 
 def undescribe(c):
@@ -800,12 +870,19 @@ def strip_res(res):
 
 
 def run(ctx):
-    ctx.build_with_translator(FILES)
+    from . import c06m
+    # C06M: the multi-threshold marker tree of _SingleSourceDeblender over C04's connected components; the watershed is
+    # a Section variable constrained only by its specification (checked on every real call)
+    ctx.build_with_translator(FILES, extra_files=[f for f in c06m.COQ_FILES if f not in FILES],
+                              extra_obligation_files=c06m.OBLIGATION_FILES)
     ctx.cov['rule'] = (
         'blended scenes (2-5 overlapping rounded Gaussians, 2-4 separate blends deblended in one call, bright stars '
         'with ~1% companions that split only under exponential/sinh levels next to segments containing one planted '
         'zero/negative pixel (per-source fallback to linear), blends on parallel diagonals with interlocking '
-        'bounding boxes, clusters, '
+        'bounding boxes, compact groups whose segments are cut into touching pieces (Voronoi cells / stripes: 4- and '
+        '8-adjacent neighbours inside each other\'s bounding boxes, slivers smaller than npixels next to bright '
+        'neighbours), outputs of an earlier deblend_sources pass fed back in (fresh image or the object itself, '
+        'different npixels/contrast/labels), clusters, '
         'the same scenes on pedestals 0/1e3/1e5/1e7 with amplitudes 1/0.1/0.01, scaled by 2^+-40, float32 inputs, '
         'plateaus, ridges with saddles, noise, hand-made segmentations incl. disconnected parents) -> '
         'detect_sources or hand labels; label gaps and '
@@ -1004,6 +1081,9 @@ def run(ctx):
             ctx.violation('correspondence:C06_Model.check_case',
                           'model and implementation disagree (property clauses hold on this output)', detail,
                           found_input=False)
+
+    # per-source marker logic of the real _SingleSourceDeblender against C06M_Model (own PRNG)
+    c06m.run_marker_correspondence(ctx, 120 if ctx.tier == 'quick' else 1200)
 
 
 def replay(obj):
